@@ -146,6 +146,10 @@ def gen_netlist_doc(rng, max_modules: int = 10, max_nets: int = 10, kinds=None, 
     kinds = kinds or ["soft", "soft", "soft", "hard", "flip", "fixed", "terminal"]
     mods: dict = {}
     names = [rng.choice(["M", "blk", "_x", "Core", "u"]) + str(i) + rng.choice(["", "_a", "B"]) for i in range(n)]
+    if rng.random() < 0.1:
+        # legal identifiers that older YAML dialects read as booleans / nulls
+        for k, w in enumerate(rng.sample(["NO", "Yes", "on", "Off", "y", "N", "No", "ON"], min(n, rng.randint(1, 3)))):
+            names[k] = w
     for name in names:
         kind = rng.choice(kinds)
         m = gen_module(rng, fam, kind, sc)
